@@ -136,8 +136,10 @@ def install(P):
 
     @P.summary("PartialOrd::lt", "PartialOrd::le", "PartialOrd::gt", "PartialOrd::ge")
     def _rel(ctx, c):
-        o = key_cmp(ctx, c.args[0], c.args[1])
-        return {"lt": o == "Less", "le": o != "Greater", "gt": o == "Greater", "ge": o != "Less"}[c.key.split("::")[-1]]
+        # the comparison operators are defined through partial_cmp (std's default methods): incomparable => false
+        r = deref(P.summaries["PartialOrd::partial_cmp"](ctx, c))
+        o = deref(r.fields[0]).variant if r.variant == "Some" else None
+        return {"lt": o == "Less", "le": o in ("Less", "Equal"), "gt": o == "Greater", "ge": o in ("Greater", "Equal")}[c.key.split("::")[-1]]
 
     @P.summary("Ord::max", "Ord::min")
     def _maxmin(ctx, c):
